@@ -727,3 +727,42 @@ Proof.
     rewrite !app_length, <- Lc. split; [reflexivity|]. intros Hle. assert (Hc0 : length c = 0%nat) by lia.
     destruct c; [|discriminate]. destruct c'; [reflexivity|discriminate].
 Qed.
+
+(* ------------------------------------------------------------------------ *)
+(* scanning a stream in metadata-only mode                                   *)
+(* ------------------------------------------------------------------------ *)
+(* what the scan yields, as a specification: each message starts at the next
+   BUFR, is the metadata-only decode of what follows, its bytes are taken from
+   the DECLARED total length (cut at the end of the input), and the scan resumes
+   right after those bytes *)
+Fixpoint scan_spec (dd : list (pname * pvalue) -> reader -> result (bits * reader))
+    (s : list byte) (ms : list message) : Prop :=
+  match ms with
+  | [] => True
+  | m :: rest =>
+      exists i m0 len,
+        find_sig sig_BUFR s = Some i /\
+        decode_message dd None true false (skipn i s) = Ok m0 /\
+        m_sections m = m_sections m0 /\ m_props m = m_props m0 /\
+        prop_get Nlength (m_props m0) = Some (PUint len) /\
+        m_bytes m = firstn (Z.to_nat len) (skipn i s) /\
+        scan_spec dd (skipn (length (m_bytes m)) (skipn i s)) rest
+  end.
+
+(* C17 info_scan_uses_declared_length *)
+Theorem info_scan_uses_declared_length : forall dd fuel s ms e,
+  scan_info dd fuel s = (ms, e) -> scan_spec dd s ms.
+Proof.
+  intros dd fuel. induction fuel as [|f IH]; intros s ms e; cbn [scan_info].
+  - intros E; injection E as <- <-. exact I.
+  - destruct s as [|x s']; [intros E; injection E as <- <-; exact I|].
+    destruct (find_sig sig_BUFR (x :: s')) as [i|] eqn:Ei; [|intros E; injection E as <- <-; exact I].
+    destruct (decode_message dd None true false (skipn i (x :: s'))) as [m0|err] eqn:Em;
+      [|intros E; injection E as <- <-; exact I].
+    destruct (prop_get Nlength (m_props m0)) as [[len| | | | |]|] eqn:El;
+      try (intros E; injection E as <- <-; exact I).
+    destruct (scan_info dd f _) as [ms' e'] eqn:Es. intros E; injection E as <- <-.
+    cbn [scan_spec]. exists i, m0, len. cbn [m_sections m_props m_bytes].
+    repeat split; auto. eapply IH. exact Es.
+Qed.
+
